@@ -233,6 +233,7 @@ pub fn check_c15(rep: &mut Report, thorough: bool) {
         kp_mut.push((format!("missing-{n}-tag"), rebuild(t, &ev.content, ev.kind, &alice.keys)));
     }
     let replace = |name: &str, vals: Vec<&str>| -> Vec<Tag> { tags0.iter().map(|t| if t.as_slice()[0] == name { Tag::parse(std::iter::once(name.to_string()).chain(vals.iter().map(|s| s.to_string()))).unwrap() } else { t.clone() }).collect() };
+    let real_i: String = ev.tags.iter().find(|t| t.as_slice()[0] == "i").map(|t| t.as_slice()[1].clone()).unwrap_or_default();
     let other_i = other.tags.iter().find(|t| t.as_slice()[0] == "i").map(|t| t.as_slice()[1].clone()).unwrap_or_default();
     for (label, tags) in [
         ("protocol-version-2.0", replace("mls_protocol_version", vec!["2.0"])),
@@ -246,6 +247,9 @@ pub fn check_c15(rep: &mut Report, thorough: bool) {
         ("i-empty", replace("i", vec![""])),
         ("i-not-hex", replace("i", vec!["zz"])),
         ("i-two-values", replace("i", vec![other_i.as_str(), other_i.as_str()])),
+        ("i-one-byte-prefix-of-real-ref", replace("i", vec![&real_i[..2]])),
+        ("i-half-prefix-of-real-ref", replace("i", vec![&real_i[..real_i.len() / 2]])),
+        ("i-real-ref-plus-extra-byte", replace("i", vec![format!("{real_i}00").as_str()])),
         ("encoding-hex", replace("encoding", vec!["hex"])),
     ] {
         kp_mut.push((label.to_string(), rebuild(tags, &ev.content, ev.kind, &alice.keys)));
